@@ -254,6 +254,28 @@ def eval_spec(spec):
                 viol(f"C11/pgdb/{kind}/stale-model-in-reused-loss-object",
                      f"{fam}: loss/algorithm objects re-used for a second tomography (same type, other testers): estimate differs "
                      f"from the fresh-object estimate by {d2:.3e}; loss {f2(got2)!r} vs {f2(fresh2)!r} (fresh)")
+            # the CVXPY-backed estimator with ONE loss / algorithm object for the two tomographies (and a second data set for the
+            # first): each estimate must be the fresh-object estimate for that experiment and must not be beaten by the truth
+            if spec["para"]:
+                CL = CvxpyUniformSquaredError if fam in ("se", "fse") else CvxpyRelativeEntropy
+                closs, calgo, cest = CL(), CvxpyMinimizationAlgorithm(), CvxpyLossMinimizationEstimator()
+                copt = CvxpyMinimizationAlgorithmOption(name_solver="scs", eps_tol=1e-9)
+                cp_ = lambda d: [(n_, np.array(x_, dtype=float)) for n_, x_ in d]  # noqa
+                for label, qtx, dx, lossx, truex in (("first tomography", qt, empi, f, true), ("second data set", qt, empi_b, fb, true),
+                                                     ("second tomography", qt2, empi2, f2, true2)):
+                    rc1, _ = L.quiet(cest.calc_estimate, qtx, cp_(dx), closs, CvxpyLossFunctionOption(), calgo, copt)
+                    xs1 = np.array(rc1.estimated_var, dtype=float)
+                    xf = np.array(run_cvx(qtx, dx, fam).estimated_var, dtype=float)
+                    cnt("cvxpy loss object re-used")
+                    if not (np.all(np.isfinite(xs1)) and np.all(np.isfinite(xf))):
+                        continue
+                    dd = float(np.linalg.norm(xs1 - xf))
+                    gap = lossx(xs1) - min(lossx(xf), lossx(to_var(qtx, truex)))
+                    if dd > 1e-4 and gap > 1e-5 * max(1.0, abs(lossx(xs1))):
+                        viol(f"C11/cvxpy/{kind}/stale-model-in-reused-loss-object",
+                             f"{fam}: CVXPY loss object re-used ({label}): estimate differs from the fresh-object estimate by {dd:.3e}; "
+                             f"loss {lossx(xs1)!r} vs {lossx(xf)!r} (fresh)")
+                        break
         except Exception as e:  # noqa
             viol(f"C11/pgdb/{kind}/raises", f"{fam}: sequence through one loss object: {type(e).__name__}: {str(e)[:200]}")
     # --- optimality certificate
